@@ -39,7 +39,7 @@ pub fn run(tier: Tier) -> i32 {
         })
         .collect();
     let gv_off: Vec<String> = gv_off_variants[0].clone();
-    let stride = tier.pick(61usize, 4usize);
+    let stride = tier.pick(23usize, 2usize);
     let widths = [10usize, 20, 40, 60];
     let mut wins: Vec<Vec<String>> = Vec::new();
     for (wi, &wd) in widths.iter().enumerate() {
@@ -67,7 +67,7 @@ pub fn run(tier: Tier) -> i32 {
             jobs.push((100 + v, wi));
         }
     }
-    par_for(jobs.len(), 1, |j| {
+    rep.par_for(jobs.len(), 1, "C12 part 1", |j| {
         let (k, wi) = jobs[j];
         let base = if k >= 100 { variant_engines[k - 100].clone() } else { engine_pk(&[k]) };
         let gv_off: &Vec<String> = if k >= 100 { &gv_off_variants[k - 100] } else { &gv_off_variants[0] };
